@@ -3,8 +3,6 @@ package c18
 import (
 	"encoding/json"
 	"fmt"
-	"math/rand"
-	"sort"
 	"strings"
 
 	hcl "Havoc/pkg/profile/yaotl"
@@ -38,6 +36,9 @@ var exclusions = []string{
 	"an injected fault that the reference never evaluates (dead code, e.g. the body of a for over an empty collection): static checks of dead code are not defined",
 	"result typing list-vs-tuple and map-vs-object is not compared (a splat over a list yields a list here, the language says tuple); values are compared structurally",
 	"try()/can() with argument expansion",
+	"number->string conversion of a zero that results from negating zero or from an operation with a negative operand: the float library keeps it as negative zero and prints \"-0\" (\"x${0 * -1}\" gives \"x-0\"); treated like 1/0 = +Inf as library behaviour, see report",
+	"strip marker next to a heredoc / ParseTemplate literal that contains $ or % (the scanner also splits literals there; same deviation as the known finding, not modelled)",
+	"for expression with an 'if' clause over an empty source (this tree type-checks the clause once with unknown iterator values; whether dead code is checked is not defined)",
 }
 
 type expected struct {
@@ -541,6 +542,3 @@ func shortWhy(s string) string {
 	}
 	return s
 }
-
-var _ = sort.Strings
-var _ = rand.Int
